@@ -164,7 +164,8 @@ structure Cfg where
   recordKeyPath : Bool := true
   interPath : Bool := true
   lazyWrap : Bool := true
-  owValidates : Bool := true     -- pending C02-overwrite-validates: an Overwrite check no longer bypasses the validator
+  owValidates : Bool := true     -- /repo 49e6e91: an Overwrite check no longer bypasses the validator
+  reqFix : Bool := true          -- pending C02-object-required: Object.Required makes fields required (not the others optional)
   deriving Repr, Inhabited
 
 /-! ## Container-level pieces -/
@@ -434,6 +435,37 @@ def fieldOptional (p : Partial) (f : Field) : Bool :=
   (p.on && (match p.exceptions with
             | none => true
             | some ex => !ex.contains f.name)) || f.optional
+
+/-! ### `ZodObject.Required`  (`types/object.go:386-402`)
+
+  The written call (`ReqCall`) is applied to the object
+  built so far (shape with the members' own Optional flags, partial state). -/
+inductive ReqCall
+  | all                       -- `Required()`
+  | keys (ks : List Nat)      -- `Required(ks)`
+  deriving Repr, Inhabited
+
+/-- the code before C02-object-required: `Required` SETS the partial state — `IsPartial = true`,
+    `PartialExceptions = ks` (nil for `Required()`) — so every field NOT listed becomes optional (all of them for
+    `Required()`), and a listed field whose schema is optional stays optional: nothing is made required. -/
+def requiredLegacy (r : ReqCall) (shape : List Field) (_p : Partial) : List Field × Partial :=
+  (shape, { on := true, exceptions := match r with
+                                       | .all => none
+                                       | .keys ks => some ks })
+
+/-- after C02-object-required: the listed fields (all for `Required()`) are entered in `RequiredKeys`, which
+    `isFieldOptional` consults first; the other fields keep their state. -/
+def requiredFixed (r : ReqCall) (shape : List Field) (p : Partial) : List Field × Partial :=
+  let ks := match r with
+    | .all => shape.map (·.name)
+    | .keys ks => ks
+  (shape.map (fun f => if ks.contains f.name then { f with optional := false } else f),
+   if p.on then { p with exceptions := some (p.exceptions.getD [] ++ ks) } else p)
+
+def applyRequired (cfg : Cfg) (r : Option ReqCall) (shape : List Field) (p : Partial) : List Field × Partial :=
+  match r with
+  | none => (shape, p)
+  | some r => if cfg.reqFix then requiredFixed r shape p else requiredLegacy r shape p
 
 def extractObject : V → Option (List (V × V))
   | .map .str .any (some es) => some es
